@@ -78,3 +78,22 @@ Theorem C12_ids_unique_after_any_history :
 Proof. exact history_ids_unique. Qed.
 Print Assumptions C12_ids_unique_after_any_history.
 
+
+(* ---- read-your-writes consequences of the abstract specification alone, after any history ---- *)
+From Clover Require Import CompositeSpec AbstractSpecProofs.
+Theorem C12_insert_then_find_by_id : forall ops c d fresh d',
+  hist_dom_all empty_db (ops ++ [OInsert c [d] fresh; OFindById c (object_id d')]) ->
+  assign_ids [d] fresh = [d'] ->
+  exists ts0 t1 t2,
+    fst (run_ops empty_db (ops ++ [OInsert c [d] fresh; OFindById c (object_id d')])) = ts0 ++ [t1; t2] /\
+    (t1 = T_ok (TL []) -> t2 = T_ok (T_of_opt_doc (Some d'))).
+Proof. exact history_insert_then_find_by_id. Qed.
+Print Assumptions C12_insert_then_find_by_id.
+
+Theorem C12_delete_then_find_by_id : forall ops c id,
+  hist_dom_all empty_db (ops ++ [ODeleteById c id; OFindById c id]) ->
+  exists ts0 t1 t2,
+    fst (run_ops empty_db (ops ++ [ODeleteById c id; OFindById c id])) = ts0 ++ [t1; t2] /\
+    (t1 = T_ok (TL []) -> t2 = T_ok (T_of_opt_doc None)).
+Proof. exact history_delete_then_find_by_id. Qed.
+Print Assumptions C12_delete_then_find_by_id.
